@@ -367,6 +367,41 @@ class FnInfo:
         self._closure[key] = out
         return out
 
+    def monotone_phis(self):
+        """{phi id: +1 | -1} for loop counters: every incoming value is either independent of the phi (an entry value)
+        or `add nsw/nuw phi, c` with a constant of one sign.  Their entry value bounds them from below (above)."""
+        if getattr(self, "_mono", None) is not None:
+            return self._mono
+        out = {}
+        dyn = set()
+        self.mono_dyn = dyn
+        for i in self.f.all_insts():
+            if i.op != "phi" or not (i.type.startswith("i") and i.type[1:].isdigit()):
+                continue
+            w = int(i.type[1:])
+            sign = 0
+            ok = True
+            for o in i.ops:
+                if o[0] == "i":
+                    d = self.f.insts[o[1]]
+                    if d.op == "add" and d.ops[0] == ["i", i.id] and d.ops[1][0] == "c":
+                        c = ir.cint_signed(d.ops[1])
+                        sg = 1 if c > 0 else -1 if c < 0 else 0
+                        if sg == 0 or (sign and sg != sign) or (sg < 0 and not d.d.get("nsw")):
+                            ok = False
+                        if not (d.d.get("nsw") or d.d.get("nuw")):
+                            dyn.add(i.id)      # plain add: the back edge must show that the increment cannot wrap
+                        sign = sg
+                        continue
+                    if ("i", i.id) in self.closure_phi(("i", o[1])):
+                        ok = False
+                elif o[0] not in ("c", "a"):
+                    ok = False
+            if ok and sign:
+                out[i.id] = sign
+        self._mono = out
+        return out
+
     def closure_phi(self, key):
         """static data dependence: like closure() but also through phi operands"""
         ck = ("phi", key)
@@ -476,6 +511,7 @@ class Explorer:
         self.pair_keys = {k for p in self.pairs for k in p}
         self.sticky = {k for k in self.assume if k[0] == "rel"}     # assumed relations describe the value itself: never invalidated
         self.cyclic = self.info.cyclic_phis()
+        self.mono = self.info.monotone_phis()
         self.live = self.info.live_after_phis()
         self.rets = []                  # (state, ret inst, AV of returned value)
         self.visited_blocks = set()
@@ -1120,6 +1156,25 @@ class Explorer:
                     k = ("i", p.id)
                     if p.id in self.cyclic:
                         newv[k] = TOP
+                        sg = self.mono.get(p.id)
+                        if sg:
+                            w = int(p.type[1:])
+                            half = 1 << (w - 1)
+                            for o, pb in zip(p.ops, p.d["inc"]):
+                                if pb != pred:
+                                    continue
+                                if o[0] == "i" and self.f.insts[o[1]].op == "add" and self.f.insts[o[1]].ops[0] == ["i", p.id]:
+                                    cur = env.get(k)            # back edge: the entry bound persists
+                                    if p.id in self.info.mono_dyn:
+                                        c = ir.cint_signed(self.f.insts[o[1]].ops[1])
+                                        if cur is None or cur[0] != "int" or is_empty(cur) or umax(cur) + c >= half:
+                                            cur = None          # the increment may wrap: no bound
+                                else:
+                                    cur = self.eval(o, env)     # entry edge
+                                if cur is not None and cur[0] == "int" and not is_empty(cur):
+                                    sv = to_signed_ivs(cur)
+                                    newv[k] = from_signed_ivs(w, [(sv[0][0], half - 1)]) if sg > 0 else from_signed_ivs(w, [(-half, sv[-1][1])])
+                                break
                         continue
                     for o, pb in zip(p.ops, p.d["inc"]):
                         if pb == pred:
